@@ -53,7 +53,18 @@ LostEmptyDocsK(din, dout, n, onlyTagged) ==
   IF din = <<>> THEN dout = <<>> /\ n > 0
   ELSE \/ dout # <<>> /\ H!FirstBad(Head(din), Head(dout), 1).at = 0 /\ LostEmptyDocsK(Tail(din), Tail(dout), n, onlyTagged)
        \/ EmptyRootDoc(Head(din)) /\ (onlyTagged => H!Norm(Head(din)[2]).t # <<>>) /\ LostEmptyDocsK(Tail(din), dout, n + 1, onlyTagged)
-LostEmptyDocs(din, dout, n) == LostEmptyDocsK(din, dout, n, FALSE)
+\* long lists: the same question answered in one pass (a document that can be matched is matched; complete when the documents that
+\* may be dropped are exactly the empty-root ones - for onlyTagged the pass may answer FALSE where the search finds a way, which only
+\* changes the name "t" / "u" given to the loss)
+RECURSIVE LostEmptyDocsPass(_, _, _, _, _, _)
+LostEmptyDocsPass(din, dout, i, o, n, onlyTagged) ==
+  IF i > Len(din) THEN o > Len(dout) /\ n > 0
+  ELSE IF o <= Len(dout) /\ H!FirstBad(din[i], dout[o], 1).at = 0 THEN LostEmptyDocsPass(din, dout, i + 1, o + 1, n, onlyTagged)
+  ELSE IF EmptyRootDoc(din[i]) /\ (onlyTagged => H!Norm(din[i][2]).t # <<>>) THEN LostEmptyDocsPass(din, dout, i + 1, o, n + 1, onlyTagged)
+  ELSE FALSE
+LostEmptyDocsAny(din, dout, n, onlyTagged) ==
+  IF Len(din) <= 8 THEN LostEmptyDocsK(din, dout, n, onlyTagged) ELSE LostEmptyDocsPass(din, dout, 1, 1, n, onlyTagged)
+LostEmptyDocs(din, dout, n) == LostEmptyDocsAny(din, dout, n, FALSE)
 \* "t" when the loss is explained by tagged empty roots alone, else "u"
-LostKind(din, dout) == IF LostEmptyDocsK(din, dout, 0, TRUE) THEN "t" ELSE "u"
+LostKind(din, dout) == IF LostEmptyDocsAny(din, dout, 0, TRUE) THEN "t" ELSE "u"
 =============================================================================
